@@ -31,6 +31,9 @@ def _world(r):
     names = {}
     for nm in r.sample(['a', 'b', 'c', 'x', 'y', 'z', '%my var%', 'цена'], r.randint(0, 5)):
         names[nm] = gen.host_value_spec(r, 2, floats=r.random() < 0.15)
+    conts = [k for k, v in names.items() if isinstance(v, list) or (isinstance(v, dict) and 'm' in v)]
+    if conts and r.random() < 0.3:
+        names[r.choice(['acc', 'item', 'z'])] = {'alias': r.choice(conts)}     # one host object under two names
     fns = ['t', 'call', 'attempt'] if r.random() < 0.4 else []
     w = {'names': names, 'host_fns': fns}
     if r.random() < 0.3:
@@ -61,8 +64,21 @@ def generate(seed, tier):
         arity = {k: len(v.params) for k, v in cur.items() if getattr(v, '_sim_kind', '') == 'lambda'}
         g = ProgGen(ro, env, max_depth=ro.choice([2, 3, 3, 4]), allow_host=world['host_fns'], fn_arity=arity,
                     probes=bool(world['host_fns']) and ro.random() < 0.3)
-        if ops and ro.random() < 0.15:
-            prev = ro.choice(ops)       # the same source text again, in a possibly different names state
+        if ro.random() < 0.1:
+            # faults between the judged evaluations: a text that does not parse, or a list_names scan abandoned midway
+            # (possibly inside an open bracket) on the same parser
+            from .. import badsrc
+            base = lang.render(g.program(), 0)
+            if ro.random() < 0.6:
+                bk, text = badsrc.make_bad(S['faults'], base)
+                if bk not in ('premature_end', 'unbalanced_open', 'unbalanced_close', 'illegal_char', 'unterminated_string', 'reserved_word'):
+                    continue        # only texts that surely fail to parse (nothing of them may run)
+                ops.append({'op': 'bad', 'src': text, 'space': si})
+            else:
+                ops.append({'op': 'scan', 'src': base, 'consume': S['faults'].randint(0, 3), 'space': si})
+            continue
+        if ops and ro.random() < 0.15 and any(o['op'] == 'eval' for o in ops):
+            prev = ro.choice([o for o in ops if o['op'] == 'eval'])       # the same source text again, in a possibly different names state
             ops.append(dict(prev, space=si))
             prog = prev['prog']
         else:
@@ -89,6 +105,21 @@ def execute(case, ctx):
     interesting = False
     for step, op in enumerate(case['ops']):
         ctx.step = step
+        if op['op'] == 'bad':
+            try:
+                W.parser.eval(op['src'], dict(second[0] if op.get('space') and second else W.names))
+            except Exception:
+                ctx.fault('bad_source')
+            continue
+        if op['op'] == 'scan':
+            try:
+                it = iter(W.parser.list_names(op['src']))
+                for _ in range(op['consume']):
+                    next(it, None)
+                ctx.fault('gen_abandon')
+            except Exception:
+                pass
+            continue
         rec = monitors.Rec()
         if op.get('space') and second:
             ctx.probe('second_names_mapping')
@@ -138,4 +169,4 @@ def simplify(case):
 
 
 def sample(case):
-    return {'world': case['world'], 'ops': [lang.render(o['prog'], o.get('style', 0)) for o in case['ops']][:6]}
+    return {'world': case['world'], 'ops': [lang.render(o['prog'], o.get('style', 0)) if 'prog' in o else o for o in case['ops']][:6]}
